@@ -125,7 +125,14 @@ def random_spec(r):
                 hi = None
     else:
         scale = dict(name=sname)
-    nf = r.choice([1, 1, 2, 2, 3, 3, 5, 8, 10, 23, 40])
+    if kind == "gammatone":  # polynomial tails: only narrow filters avoid the whole-period fallback
+        nf = r.choice([1, 2, 3, 5, 10, 23, 40, 40, 64, 64, 100, 128])
+    elif kind == "gabor":  # Gaussian tails: only the widest filters reach it
+        nf = r.choice([1, 1, 1, 1, 2, 2, 3, 5, 8, 10, 23, 40])
+    else:
+        nf = r.choice([1, 1, 2, 2, 3, 3, 5, 8, 10, 23, 40])
+    if kind == "gabor" and nf == 1 and r.random() < 0.5:
+        scale = dict(name="linear", low_hz=0.0, slope_hz=1.0)
     spec = dict(kind=kind, rate=rate, low_hz=lo, high_hz=hi, num_filts=nf)
     if kind == "fbank":
         spec["analytic"] = r.random() < 0.5
@@ -137,7 +144,7 @@ def random_spec(r):
         spec["l2"] = r.random() < 0.4
         spec["erb"] = r.random() < 0.4
     if kind == "gammatone":
-        spec["order"] = r.choice([1, 2, 3, 4, 4, 4, 5, 6])
+        spec["order"] = r.choice([1, 2, 3, 4, 4, 4, 5, 5, 6, 6])
         spec["max_centered"] = r.random() < 0.4
     return spec
 
